@@ -274,7 +274,14 @@ func VH_C06_Lifecycle() {
 	case 2:
 		// renewal as the resumption code does it: only after a successful lookup
 		if e, ok := cache.LookupNonExpired(s0.id); ok {
+			before := time.Now()
 			e.RenewLease()
+			after := time.Now()
+			if e.Lease() != 0 {
+				vCover("lease-renewed")
+				exp := e.Expiration()
+				vAssert(!exp.Before(before.Add(e.Lease())) && !exp.After(after.Add(e.Lease())), "renewal-restarts-the-lease-from-the-moment-of-use")
+			}
 		}
 	case 3:
 		cache.Store(s0.entry)
